@@ -356,14 +356,14 @@ def map_accuracy(model, steering, owner, source, noise, perm, blur, dhtv, iterat
 
 @oracle
 def output_sir(beamformer, noise_variant, model, steering, owner, source, noise, perm, blur, dhtv, iterations,
-               global_variant, entry='fit+predict'):
+               global_variant, entry='fit+predict', bf_options=None):
     """every source: output_sxr(...).sir >= 30 dB for the named beamformer designed from the aligned posteriors"""
     why = _domain(steering, owner, source, noise, perm, dhtv)
     if why:
         return Skip(why)
     r = _chain(model, steering, owner, source, noise, perm, blur, dhtv, iterations, global_variant, entry)
     try:
-        W, _ = pu.design_beamformers(beamformer, r['Y'], r['aligned'], noise_variant)
+        W, _ = pu.design_beamformers(beamformer, r['Y'], r['aligned'], noise_variant, bf_options)
     except Exception as e:  # the property allows no exception on a separable scene
         return Fail(f'exception:{beamformer}:{type(e).__name__}',
                     f'mask-based PSDs (F,K,D,D) from the aligned posteriors + get_bf_vector({beamformer!r}) ({model}, noise PSD '
@@ -425,8 +425,11 @@ def search(ctx):
             ok = ctx.run(map_accuracy, _size=size, model=model, global_variant=gv, entry=entry, **case)
             oks = {}
             for bf in pu.BEAMFORMERS:
+                opt = 'use_eig' if (pu.bf_kwargs(bf, 'use_eig') and rng.random() < 0.35) else None
+                if opt:
+                    ctx.count('bf-option-use_eig')
                 oks[bf] = ctx.run(output_sir, _size=size, beamformer=bf, noise_variant=nv, model=model,
-                                  global_variant=gv, entry=entry, **case)
+                                  global_variant=gv, entry=entry, bf_options=opt, **case)
             if i < 3 and _CACHE.get('last') is not None:
                 r = _CACHE['last'][2]
                 ctx.sample({'oracle': 'map_accuracy+output_sir', **info, 'model': model, 'global_alignment': gv,
